@@ -10,6 +10,8 @@ from fractions import Fraction
 
 from .tlc import run_tlc, MachineryError, VERIF, TlcResult
 from . import trace as _trace
+import threading
+_MC_LOCK = threading.Lock()
 
 LEVELS = {"exploration", "fault_enumeration", "model_checking", "proof", "translation_validation", "other"}
 
@@ -81,6 +83,10 @@ class Ctx:
             finally:
                 os.unlink(tmp_cfg)
             r.cfg = cfg
+        with _MC_LOCK:          # drivers start independent TLC runs from several threads; the bookkeeping is serialised
+            return self._book_model_check(r, module, cfg, expect_violation, note)
+
+    def _book_model_check(self, r, module, cfg, expect_violation, note):
         entry = {"module": module, "cfg": cfg, "generated": r.generated, "distinct": r.distinct,
                  "depth": r.depth, "wall_s": round(r.wall_s, 1), "note": note}
         if expect_violation is None:
